@@ -203,10 +203,12 @@ def _worker(rng):
                 obs = check.plain(obs)
                 if obs[0] == "ok":
                     stats["impl_ok"] += 1
-                    if obs[1]:
+                    if obs[1] and not getattr(check, "nontrivial_is_reject", False):
                         stats["nontrivial"] += 1
                 else:
                     stats["impl_fail"] += 1
+                    if getattr(check, "nontrivial_is_reject", False):
+                        stats["nontrivial"] += 1
         before = len(out)
         check.judge(spec, tabs[i], model_obs, out)
         if len(out) > before and len(spec.starts) > 1 and check.isolate and not spec.raw:
